@@ -47,6 +47,9 @@
 EXTENDS Integers, Sequences, FiniteSets, TLC, Json
 
 CONSTANTS TxHolderCheck, UnsetFix, CatchUpKeeps, GrantPins, IdemCheck, WaitPos, FwdFirst, ExpiryUnlocks,
+          MaxDrop,      \* 0 = the primary's application never unlinks the database; 1 = it may (LDrop)
+          DropExcluded, \* TRUE = the unlink needs the database's write lock, which a granted halt lock pins (what the
+                        \* property demands); FALSE = DB.Drop as written: no lock is taken, the drop is published at once
           MaxTx,       \* commits of any kind (bounds the checksum serial numbers)
           MaxFaults,   \* lost requests / lost responses / duplicated requests, together
           MaxHandles,  \* lock-file handles R opens (= distinct lock ids)
@@ -390,6 +393,23 @@ LWCommit ==
   /\ UNCHANGED <<primary, halt, rlock, hid, hhas, rpc, first, conn, bel, dups, former, wedged,
                  nfault, nhandle, nexp, npc, nrogue, nblock, nckpt, nidle, fCkpt, fFirstPre, fAck, fBad, fIdem, fFormer>>
 
+\* the primary's application unlinks the database (RootNode.Remove -> DB.Drop): a local transaction - the position
+\* advances by one (C15) - and so one of the things a granted halt lock must keep out
+LDrop ==
+  /\ Go /\ MaxDrop > 0 /\ ntx < MaxTx
+  /\ LET p == primary
+         e == [t |-> pos[p].t + 1, pre |-> pos[p].c, c |-> ntx + 1, node |-> p, snap |-> FALSE]
+     IN IF wl[p] = "free" \/ ~DropExcluded
+        THEN /\ pos' = [pos EXCEPT ![p] = PosOf(e)] /\ log' = [log EXCEPT ![p] = Append(@, e)]
+             /\ ntx' = ntx + 1 /\ nidle' = nidle
+             /\ fLocal' = (fLocal \/ HasLock(p))
+             /\ H("LDrop", [x |-> 0], [res |-> "ok", t |-> e.t, c |-> e.c])
+        ELSE /\ nidle < MaxIdle /\ nidle' = nidle + 1
+             /\ UNCHANGED <<pos, log, ntx, fLocal>>
+             /\ H("LDrop", [x |-> 0], [res |-> "busy"])
+  /\ UNCHANGED <<primary, wl, halt, rlock, hid, hhas, rpc, first, conn, bel, dups, former, wedged,
+                 nfault, nhandle, nexp, npc, nrogue, nblock, nckpt, fCkpt, fFirstPre, fAck, fBad, fIdem, fFormer>>
+
 \* a checkpoint on the primary (client checkpoint in WAL mode, DB.Checkpoint/Recover otherwise): needs the write lock
 Ckpt ==
   /\ Go /\ nckpt < MaxCkpt
@@ -487,7 +507,7 @@ Next ==
   \/ OpenHandle
   \/ \E f \in Faults, d \in BOOLEAN : Acquire(f, d) \/ RTx(f, d) \/ Release(f, d)
   \/ AcqTimeout \/ AcquireRace
-  \/ LWBegin \/ LWCommit \/ Ckpt \/ Expire
+  \/ LWBegin \/ LWCommit \/ LDrop \/ Ckpt \/ Expire
   \/ \E lid \in {BogusId} \cup former : Rogue(lid)
   \/ Dup
   \/ \E n \in {"R", "T"} : Block(n) \/ Unblock(n)
